@@ -5,3 +5,6 @@ open BeffVerif.C09
 #print axioms unbound_name_is_diagnostic
 #print axioms unexported_import_is_diagnostic
 #print axioms unresolvable_specifier_binds_nothing
+#print axioms resolveQual_sound
+#print axioms qualPath_sound
+#print axioms resolveName_sound
